@@ -130,6 +130,16 @@ def run_case(case):
             plan.hold_fail = False
             tkw = {"read_timeout_s": 1.0, "transport_timeout_s": 0.9}
             stats["slow_devices"] = 1
+        if kind in ("push", "pull") and not slow_send and not slow_dev and not dims.get("pace") and rng.random() < 0.25:      # (on an instantaneous device: a slow one may legitimately run into the wait limit for the OKAY)
+            # the device finishes its (split) reply before it acknowledges the request that provoked it -- and, as always, sends the next piece only after the
+            # previous one was acknowledged
+            plan.early_reply = True
+            plan.reply_first = True
+            plan.hold_fail = False
+            if plan.split_mode == "whole":
+                plan.split_mode = "list"
+                plan.split_sizes = [rng.choice([4, 8, 9, 20])]
+            stats["replies_completed_before_the_okay"] = 1
         if kind == "pushdir":
             return run_pushdir(case, rng, sess, plan, reason, rclass, stats)
         if kind == "push":
